@@ -17,7 +17,7 @@ impl Prop for C08 {
     fn meta() -> Meta {
         Meta {
             level: "exploration",
-            rule: "Programs from the C03 grammar with INPUT v / v$ / cell targets spliced at every position the grammar offers (alone, after/before other statements, inside THEN, inside ELSE, inside THEN followed by ELSE, in FOR bodies and subroutines); structured reply scripts (numbers, decimals, negatives, bare words, quoted text with , and :, empty, blanks, surplus after , or :, replies of 260-320 characters, numerals spelled +5 / 1e2 / .5 / 007 / 5.) and cells that cannot be stored into (BAD SUBSCRIPT after a suitable reply) with non-numeric replies to numeric targets repeated; a share of requests is first interrupted by break + CONT. Oracle: lock-step reference model per segment (output before the request, REENTER/EXTRA IGNORED records, continuation equals the assignment, stored scalars equal the model's at every segment end) plus probe equality across every REENTER. distinct_nontrivial = distinct (program, ticks, inputs answered, stops, error, breaks) hashes among runs that answered >= 1 request.",
+            rule: "Programs from the C03 grammar with INPUT v / v$ / cell targets spliced at every position the grammar offers (alone, after/before other statements, inside THEN, inside ELSE, inside THEN followed by ELSE, in FOR bodies and subroutines); structured reply scripts (numbers, decimals, negatives, bare words, quoted text with , and :, empty, blanks, surplus after , or :, replies of 260-320 characters, numerals spelled +5 / 1e2 / .5 / 007 / 5.) and cells that cannot be stored into (BAD SUBSCRIPT after a suitable reply) with non-numeric replies to numeric targets repeated; a share of requests is first interrupted by break + CONT; one session in four runs with tracing on, one in four with warnings on (trace and warning records are compared with the model's as in C17). Oracle: lock-step reference model per segment (output before the request, REENTER/EXTRA IGNORED records, continuation equals the assignment, stored scalars equal the model's at every segment end) plus probe equality across every REENTER. distinct_nontrivial = distinct (program, ticks, inputs answered, stops, error, breaks) hashes among runs that answered >= 1 request.",
             real: &["abasic-core Interpreter incl. DATA/reply parser (parse_data_until_colon), INPUT rewind path"],
             stub: &["the host (replies, breaks)", "reference model sim/src/model.rs with structured replies (no reply parser shared)"],
             assumptions: &[
@@ -56,8 +56,10 @@ impl Prop for C08 {
             // make sure INPUT is present most of the time
             let has_input = c.lines.iter().any(|l| crate::ast::print_line_body(&l.stmts).contains("INPUT"));
             if has_input || rng.chance(1, 10) {
-                c.tracing = false;
-                c.warnings = false;
+                // swarm: the request / REENTER / EXTRA IGNORED records are the same whether or not the host has
+                // tracing or warnings switched on (one session in four each)
+                c.tracing = rng.chance(1, 4);
+                c.warnings = rng.chance(1, 4);
                 break c;
             }
         };
@@ -92,8 +94,8 @@ impl Prop for C08 {
     fn execute(c: &ProgCase, ctx: &mut Ctx) -> Option<Violation> {
         let cmp = Compare {
             prop: "C08",
-            trace: false,
-            warnings: false,
+            trace: c.tracing,
+            warnings: c.warnings,
             reenter_probe: true,
         };
         match run_lockstep(c, cmp, ctx) {
